@@ -41,7 +41,7 @@ claimed.update({
    text=("Symbolic execution of the real proposing branch (OnTimeout/OnNewTransaction/Start -> sendPrepareRequest -> Fill -> getTimestamp) with previous timestamp, clock reading, timestamp increment (default 10^6 and ANY value in [1,2^40]) and pool content as solver variables: timestamp strictly increasing, equal to max(previous+increment, clock truncated to the increment), NewPrepareRequest/payload/context/primary's block all carry exactly (timestamp, nonce, pool hashes in order). Division by the increment is decided by cvc5's bit-vectors-as-integers translation for the whole 64-bit domain."),
    design_ref="DESIGN.md §6 C15", technique="symbolic execution of go/ssa + SMT (cvc5 --solve-bv-as-int for division by the increment)", note=STEP_NOTE),
  "C20": dict(category="model_checking", engine="apalache",
-   text=("Apalache (SMT-based symbolic model checker) on type-annotated copies of the five shipped .tla files regenerated from the working tree at every run. Basic dBFT 2.0 and anti-MEV models: an inductive invariant is proved (Init => IndInv, IndInv /\\ Next => IndInv', IndInv => TypeOK /\\ InvTwoBlocksAccepted /\\ InvFaultNodesCount) for four validators, MaxView 2 and EVERY placement of <= 1 faulty/dead node (fault sets are solver variables): the stated invariants hold in every reachable state, no depth bound. Multipool, dBFT 2.1 three-staged and centralized CV models: bounded symbolic runs from Init (length 4 quick / 8 thorough) only. An alarm (counterexample to induction or bounded violation) is confirmed by a concrete behaviour from Init (bounded Apalache run, then TLC on the unmodified spec) before it is reported."),
+   text=("Apalache (SMT-based symbolic model checker) on type-annotated copies of the five shipped .tla files regenerated from the working tree at every run. Basic dBFT 2.0 and anti-MEV models: an inductive invariant is proved (Init => IndInv, IndInv /\\ Next => IndInv', IndInv => TypeOK /\\ InvTwoBlocksAccepted /\\ InvFaultNodesCount) for four validators, MaxView 2 and EVERY placement of <= 1 faulty/dead node (fault sets are solver variables): the stated invariants hold in every reachable state, no depth bound. dBFT 2.1 three-staged CV model: the natural candidate invariant is NOT inductive and the counterexample is real: TLC replays it to a behaviour from Init that violates InvTwoBlocksAccepted with one permitted faulty node (recorded known finding KF-3); the all-good configuration is re-checked exhaustively on every run. Multipool and centralized CV models: bounded symbolic runs from Init (length 4 quick / 8 thorough) only. An alarm (counterexample to induction or bounded violation) is confirmed by a concrete behaviour from Init (bounded Apalache run, then TLC on the unmodified spec) before it is reported."),
    design_ref="DESIGN.md §6 C20", technique="Apalache: SMT-based inductive-invariant checking and bounded symbolic execution of the TLA+ specs; TLC only replays alarms",
    note="Trusted: Apalache 0.58 + z3, the mechanical type annotation, the hand-written inductive invariants in tla/MC_*.tla.in (they only strengthen what is proved; a wrong one fails Q1/Q2, it cannot make a false claim pass Q3)."),
  "C09": dict(category="model_checking",
